@@ -22,10 +22,11 @@ type vxC10Case struct {
 	Window int    `json:"window"` // rpmRollingWindowSize
 	Ratio  string `json:"ratio"`  // control cycles per RPM poll: "5:1" | "1:1" | "1:5"
 	Curve  int    `json:"curve"`
+	Map    string `json:"map"` // PWM map ("" = identity)
 }
 
 func (c vxC10Case) String() string {
-	return fmt.Sprintf("%s limits[%d,%d] theta=%d r0=%d window=%d cycles:polls=%s curve=%d", c.Kind, c.Min, c.Max, c.Theta, c.R0, c.Window, c.Ratio, c.Curve)
+	return fmt.Sprintf("%s limits[%d,%d] theta=%d r0=%d window=%d cycles:polls=%s curve=%d map=%s", c.Kind, c.Min, c.Max, c.Theta, c.R0, c.Window, c.Ratio, c.Curve, c.Map)
 }
 
 type vxC10Res struct {
@@ -37,7 +38,11 @@ type vxC10Res struct {
 }
 
 func vxC10Run(c vxC10Case) (res vxC10Res, fail [2]string) {
-	cfg := vxCfg{Kind: c.Kind, NeverStop: true, Min: c.Min, Max: c.Max, Map: "identity", Algo: "direct", Window: c.Window, StartPwm: c.Max, StartMode: 1}
+	mp := c.Map
+	if mp == "" {
+		mp = "identity"
+	}
+	cfg := vxCfg{Kind: c.Kind, NeverStop: true, Min: c.Min, Max: c.Max, Map: mp, Algo: "direct", Window: c.Window, StartPwm: c.Max, StartMode: 1}
 	if c.Kind == "file" {
 		cfg.Min, cfg.Max = -1, -1
 	}
@@ -119,6 +124,10 @@ func vxC10Run(c vxC10Case) (res vxC10Res, fail [2]string) {
 				} else {
 					fail = [2]string{"C10 unexpected control error", fmt.Sprint(cycErr)}
 				}
+				return true
+			}
+			if req := vxLast(fx.ctl); req > fx.fan.GetMaxPwm() {
+				fail = [2]string{"C10 request above the fan's maximum instead of reporting the stall", fmt.Sprintf("request %d, maximum %d", req, fx.fan.GetMaxPwm())}
 				return true
 			}
 			if r := fx.ctl.stats.IncreasedMinPwmCount; r > lastRaises {
@@ -227,11 +236,21 @@ func TestVX_C10(t *testing.T) {
 				for _, w := range windows {
 					for _, r0 := range r0s {
 						for _, ra := range ratios {
-							for _, cv := range []int{0, 128} {
-								if cv == 128 && (ra != "5:1" || w > 10) {
+							for _, cv := range []int{0, 128, 255} {
+								if cv != 0 && (ra != "5:1" || w > 10) {
 									continue
 								}
-								cases = append(cases, vxC10Case{kind, l[0], l[1], th, r0, w, ra, cv})
+								cases = append(cases, vxC10Case{kind, l[0], l[1], th, r0, w, ra, cv, ""})
+								// sparse / quantising PWM maps: the request is usually not itself a supported input
+								if w <= 2 && r0 >= 500 && ra == "5:1" {
+									maps := []string{"readme", "three"}
+									if mc.Thorough() {
+										maps = []string{"readme", "three", "compress", "quant5"}
+									}
+									for _, mp := range maps {
+										cases = append(cases, vxC10Case{kind, l[0], l[1], th, r0, w, ra, cv, mp})
+									}
+								}
 							}
 						}
 					}
